@@ -140,6 +140,8 @@ func ZZ_C03_Dispatch() {
 	// a command is attributed to the read that was being consumed when it ran: keys
 	// [lo, at] (one key per read in emacs: lo == at)
 	var allCmd, allAt, allLo []int
+	var mainKey []byte // firings of the main keymap's single-key probes (local-keymap jobs)
+	var mainAt, mainLo []int
 	delivered := 0 // keys handed over so far
 	lo := 0        // index of the first key of the read being consumed
 	chunk := 0
@@ -171,7 +173,22 @@ func ZZ_C03_Dispatch() {
 				// the table is a local keymap's (consulted before the main one); the main keymap
 				// keeps a single binding that is never typed
 				rl.Config.Binds[local] = binds
-				rl.Config.Binds[km] = map[string]inputrc.Bind{"\x00": {Action: "zzprobe-none"}}
+				// the main keymap binds every plain key of the alphabet to a probe of its own:
+				// keys the local keymap does not take fall through to it
+				mainBinds := map[string]inputrc.Bind{"\x00": {Action: "zzprobe-none"}}
+				mainCmds := map[string]func(){}
+				for _, k := range []byte{'a', 'b', 0x18} {
+					k := k
+					name := "zzmain" + string(rune('0'+len(mainBinds)))
+					mainBinds[string([]byte{k})] = inputrc.Bind{Action: name}
+					mainCmds[name] = func() {
+						mainKey = append(mainKey, k)
+						mainAt = append(mainAt, delivered-1)
+						mainLo = append(mainLo, lo)
+					}
+				}
+				rl.Keymap.Register(mainCmds)
+				rl.Config.Binds[km] = mainBinds
 				rl.Keymap.SetLocal(local)
 			} else {
 				rl.Config.Binds[km] = binds
@@ -267,6 +284,58 @@ func ZZ_C03_Dispatch() {
 			}
 		}
 		zzverif.Assert(ok, "no-command-bound-to-a-different-sequence"+sfx)
+	}
+	if zzverif.Param("local") != "" {
+		// a main-keymap probe only runs for its own key, in the read that delivered it
+		for i := range mainKey {
+			ok := false
+			for at := mainLo[i]; at <= mainAt[i]; at++ {
+				if keys[at] == mainKey[i] {
+					ok = true
+				}
+			}
+			zzverif.Assert(ok, "no-command-bound-to-a-different-sequence"+sfx)
+		}
+		// the key that rules out a pending local prefix is not lost: unless it starts a local
+		// prefix itself, it runs what it is bound to, locally or in the main keymap
+		if endAt >= 1 && (wantCmd < 0 || wantAt == endAt) && endAt < m {
+			k := keys[endAt]
+			shortened := wantCmd >= 0 && len(wire[wantCmd]) <= endAt
+			failed := wantCmd < 0
+			// was the first attempt really ended by this key (and not still pending)?
+			pending := false
+			for t := 0; t < T; t++ {
+				if len(wire[t]) > endAt+1 && zzHasPrefix(wire[t], keys[:endAt+1]) {
+					pending = true
+				}
+			}
+			startsPrefix, own := false, -1
+			for t := 0; t < T; t++ {
+				if len(wire[t]) > 1 && wire[t][0] == k {
+					startsPrefix = true
+				}
+				if len(wire[t]) == 1 && wire[t][0] == k {
+					own = t
+				}
+			}
+			if (shortened || failed) && !pending && !startsPrefix && k != 0x1b {
+				zzverif.Reach("local-attempt-ended-by-a-key")
+				ran := false
+				for i := range allCmd {
+					if allCmd[i] == own && allLo[i] <= endAt && endAt <= allAt[i] {
+						ran = true
+					}
+				}
+				for i := range mainKey {
+					// (the library hands the key to the main keymap in the same iteration, without
+					// trying the local keymap again: both are accepted)
+					if mainKey[i] == k && mainLo[i] <= endAt && endAt <= mainAt[i] {
+						ran = true
+					}
+				}
+				zzverif.Assert(ran, "key-that-ends-a-local-attempt-is-dispatched"+sfx)
+			}
+		}
 	}
 	if mac && wantCmd == 0 {
 		// "a sequence bound to a macro behaves as if the macro's keys had been typed": when
